@@ -445,8 +445,39 @@ struct T
             errors().push_back("object destroyed twice");
     }
 };
-using O = nitro::lang::optional<T>;
 const int N = 2;
+
+// payload types: the tracked struct (lifetime bookkeeping), bool (a type that is itself constructible from an optional
+// through the explicit operator bool) and std::string (the type the library instantiates)
+template <typename P> struct Pay;
+template <> struct Pay<T>
+{
+    static T make(int x) { return T(x); }
+    static int val(const T& t) { return t.v; }
+    static T other() { return T(9); }
+    static const char* name() { return "optional"; }
+};
+template <> struct Pay<bool>
+{
+    static bool make(int x) { return x == 2; }
+    static int val(const bool& t) { return t ? 2 : 1; }
+    static bool other() { return true; } // overwriting with `true`: reference value 2
+    static const char* name() { return "optional<bool>"; }
+};
+template <> struct Pay<std::string>
+{
+    static std::string make(int x) { return x == 2 ? std::string(40, 'b') : std::string("a"); }
+    static int val(const std::string& t) { return t == std::string(40, 'b') ? 2 : t == "a" ? 1 : t == "other" ? 9 : -1; }
+    static std::string other() { return "other"; }
+    static const char* name() { return "optional<string>"; }
+};
+
+template <typename P>
+struct Model
+{
+using O = nitro::lang::optional<P>;
+using PT = Pay<P>;
+static int other_val() { return PT::val(PT::other()); }
 
 struct World
 {
@@ -475,12 +506,12 @@ static void apply(World& w, const std::string& op, std::vector<Finding>* f, cons
     int a = op.size() > 2 ? op[2] - '0' : 0, b = op.size() > 3 ? op[3] - '0' : 0;
     if (c == "nv")
     { // slot a = new optional from rvalue T(b)
-        w.slot[a].reset(new O(T(b)));
+        w.slot[a].reset(new O(PT::make(b)));
         w.ref[a] = b;
     }
     else if (c == "nc")
     { // from const lvalue
-        const T t(b);
+        const P t(PT::make(b));
         w.slot[a].reset(new O(t));
         w.ref[a] = b;
     }
@@ -501,6 +532,33 @@ static void apply(World& w, const std::string& op, std::vector<Finding>* f, cons
         *w.slot[b] = static_cast<const O&>(*w.slot[a]);
         w.ref[b] = w.ref[a];
     }
+    else if (c == "cn")
+    { // *slot b = *slot a, the source being a non-const lvalue (possibly self)
+        O& src = *w.slot[a];
+        *w.slot[b] = src;
+        w.ref[b] = w.ref[a];
+    }
+    else if (c == "cm")
+    { // *slot b = std::move(copy of slot a)
+        O tmp(static_cast<const O&>(*w.slot[a]));
+        *w.slot[b] = std::move(tmp);
+        w.ref[b] = w.ref[a];
+    }
+    else if (c == "cx")
+    { // slot b = copy-construct from the non-const lvalue slot a
+        O& src = *w.slot[a];
+        std::unique_ptr<O> n(new O(src));
+        auto r = w.ref[a];
+        w.slot[b] = std::move(n);
+        w.ref[b] = r;
+    }
+    else if (c == "cv")
+    { // *slot a = empty non-const lvalue
+        O none;
+        O& src = none;
+        *w.slot[a] = src;
+        w.ref[a].reset();
+    }
     else if (c == "ct")
     { // *slot b = temporary copy of slot a
         *w.slot[b] = O(*w.slot[a]);
@@ -519,12 +577,12 @@ static void apply(World& w, const std::string& op, std::vector<Finding>* f, cons
     }
     else if (c == "av")
     {
-        *w.slot[a] = T(b);
+        *w.slot[a] = PT::make(b);
         w.ref[a] = b;
     }
     else if (c == "al")
     {
-        const T t(b);
+        const P t(PT::make(b));
         *w.slot[a] = t;
         w.ref[a] = b;
     }
@@ -534,7 +592,7 @@ static void apply(World& w, const std::string& op, std::vector<Finding>* f, cons
         int got = -1;
         try
         {
-            got = (**w.slot[a]).v;
+            got = PT::val(**w.slot[a]);
         }
         catch (std::exception&)
         {
@@ -565,12 +623,12 @@ static std::vector<std::string> ops(const std::string&)
         for (int x = 1; x <= 2; x++)
             for (auto c : { "nv", "nc", "av", "al" })
                 o.push_back(c + std::to_string(a) + std::to_string(x));
-        for (auto c : { "ne", "ce", "cl", "rd" })
+        for (auto c : { "ne", "ce", "cl", "cv", "rd" })
             o.push_back(c + std::to_string(a));
         for (int b = 0; b < N; b++)
-            for (auto c : { "cc", "ca", "ct" })
+            for (auto c : { "cc", "ca", "ct", "cn", "cm", "cx" })
             {
-                if (std::string(c) == "cc" && a == b)
+                if ((std::string(c) == "cc" || std::string(c) == "cx") && a == b)
                     continue;
                 o.push_back(c + std::to_string(a) + std::to_string(b));
             }
@@ -586,8 +644,8 @@ static void observe(World& w, std::vector<Finding>& f, const std::string& ctx)
         if (engaged != w.ref[i].has_value())
             f.push_back({ engaged ? "optional-not-emptied" : "optional-lost-its-value", "slot " + std::to_string(i) + " is " + (engaged ? "engaged" : "empty") + ", reference " +
                                                                                           (w.ref[i] ? std::to_string(*w.ref[i]) : "empty") + " " + ctx });
-        else if (engaged && (**w.slot[i]).v != *w.ref[i])
-            f.push_back({ "optional-holds-wrong-value", "slot " + std::to_string(i) + " holds " + std::to_string((**w.slot[i]).v) + " expected " + std::to_string(*w.ref[i]) + " " + ctx });
+        else if (engaged && PT::val(**w.slot[i]) != *w.ref[i])
+            f.push_back({ "optional-holds-wrong-value", "slot " + std::to_string(i) + " holds " + std::to_string(PT::val(**w.slot[i])) + " expected " + std::to_string(*w.ref[i]) + " " + ctx });
     }
     // deep copies: two engaged optionals never share their payload
     for (int i = 0; i < N; i++)
@@ -615,8 +673,8 @@ static Step step(const std::vector<std::string>& hist, const std::string& op)
             for (int i = 0; i < N; i++)
                 if (*w.slot[i])
                 {
-                    *w.slot[i] = T(9);
-                    w.ref[i] = 9;
+                    *w.slot[i] = PT::other();
+                    w.ref[i] = other_val();
                     observe(w, st.findings, ctx + " then overwriting slot " + std::to_string(i));
                 }
     }
@@ -630,6 +688,7 @@ static Step step(const std::vector<std::string>& hist, const std::string& op)
     T::errors().clear();
     return st;
 }
+}; // struct Model
 } // namespace opt
 
 int main(int argc, char** argv)
@@ -645,20 +704,32 @@ int main(int argc, char** argv)
     o.id = "C18";
     o.name = "optional";
     o.initial_key = "--";
-    o.ops = opt::ops;
-    o.step = opt::step;
+    o.ops = opt::Model<opt::T>::ops;
+    o.step = opt::Model<opt::T>::step;
+    seqmc::Spec ob = o, os = o;
+    ob.name = "optional<bool>";
+    ob.ops = opt::Model<bool>::ops;
+    ob.step = opt::Model<bool>::step;
+    os.name = "optional<string>";
+    os.ops = opt::Model<std::string>::ops;
+    os.step = opt::Model<std::string>::step;
     if (!a.replay.empty())
     {
         auto doc = js::load(a.replay);
-        return seqmc::replay({ q, o }, doc.has("witness") ? doc.at("witness") : doc);
+        return seqmc::replay({ q, o, ob, os }, doc.has("witness") ? doc.at("witness") : doc);
     }
     auto r1 = seqmc::explore(q, a);
     auto r2 = seqmc::explore(o, a);
+    auto r3 = seqmc::explore(ob, a);
+    auto r4 = seqmc::explore(os, a);
     mc::Report total = r1.rep;
     total.merge(r2.rep);
+    total.merge(r3.rep);
+    total.merge(r4.rep);
     total.notes["rule"] = "BFS to a fixpoint: quaint_ptr pool of 3 slots + vector of up to 3 elements over payload types A/B/C "
                           "(canonical state = which type each slot / vector element owns), 40 operations from every state; optional "
-                          "pool of 2 over values {1,2}; every (state, operation) pair is distinct and non-trivial";
+                          "pool of 2 over values {1,2} for three payload types (tracked struct, bool, std::string) with copies/assignments from const, "
+                          "non-const, temporary and moved sources; every (state, operation) pair is distinct and non-trivial";
     mc::write_out(a, total);
     return 0;
 }
